@@ -125,6 +125,9 @@ func c20Render(ops []c20Op) ([]c20Step, error) {
 			s.Src = fmt.Sprintf("%s.sub = %s.sub", h, g)
 			s.Pre = fmt.Sprintf("str(%s.sub)", g)
 			s.Chk = fmt.Sprintf("str(%s.sub) == _pre", h)
+		case "setsubunset":
+			s.Src = fmt.Sprintf("%s.sub = %s.sub", h, g)
+			s.Chk = fmt.Sprintf("str(%s.sub) == str(T())", h)
 		case "setr":
 			s.Src = fmt.Sprintf("%s.r = [%s]", h, k)
 			s.Chk = fmt.Sprintf("list(%s.r) == [%s]", h, k)
